@@ -221,16 +221,15 @@ class PlotAllData:
             new_res = [str(i) for i in amp.decay_group]
         else:
             weights = []
-            used_res = amp.used_res
             new_res = []
-            for i in res:
-                if not isinstance(i, list):
-                    i = [i]
-                new_res.append(tuple(i))
-                amp.set_used_res(i)
-                weights.append(amp(phsp))
-            # print(weights, amp.decay_group.chains_idx)
-            amp.set_used_res(used_res)
+            # the selection that is active (not "all resonances") comes back, also when an evaluation raises
+            with amp.decay_group.keep_used_chains():
+                for i in res:
+                    if not isinstance(i, list):
+                        i = [i]
+                    new_res.append(tuple(i))
+                    amp.set_used_res(i)
+                    weights.append(amp(phsp))
         self.datasets["fitted"].partial_weight = dict(zip(new_res, weights))
 
         if self.bg is None:
